@@ -36,10 +36,13 @@ def collect(res, rng, nruns, max_cases, kind="sh"):
             kw = dict(hopping_probability="poisson")       # the option belongs to plain FSSH; the cumulative class accumulates the unscaled rates either way
         a0 = rng.randrange(n) if rng.random() < 0.4 else 0
         tr = cls(model, x0, p0, a0, dt=dt, max_steps=nsteps, zeta_list=list(zl), seed_sequence=rng.randrange(2 ** 31), **kw)
-        if kind == "eh" and rng.random() < 0.7:
-            # a coherent superposition so that the population-weighted force differs from any single-state force
+        if kind == "eh" and rng.random() < 0.8:
+            # a coherent superposition so that the population-weighted force differs from any single-state force; sometimes a genuinely mixed state
             c = np.array([complex(rng.gauss(0, 1), rng.gauss(0, 1)) for _ in range(n)]); c /= np.linalg.norm(c)
             tr.rho = np.outer(c, c.conj())
+            if rng.random() < 0.4:
+                A = np.array([[complex(rng.gauss(0, 1), rng.gauss(0, 1)) for _ in range(n)] for _ in range(n)]); r_ = A @ A.conj().T
+                tr.rho = r_ / np.trace(r_).real; res.count("fullstep-ehrenfest/mixed-initial")
         rec = {}
         steps = []
         ap, pe, cs = tr.advance_position, tr.propagate_electronics, tr.continue_simulating
@@ -64,7 +67,7 @@ def collect(res, rng, nruns, max_cases, kind="sh"):
             return out
         tr.advance_position, tr.propagate_electronics, tr.continue_simulating = advance_position, propagate_electronics, continue_simulating
         log = tr.simulate()
-        picks = sorted(rng.sample(range(len(steps)), min(len(steps), 6)))
+        picks = sorted(set([0] + rng.sample(range(len(steps)), min(len(steps), 6)))) if steps else []
         hopsteps = [i for i, s_ in enumerate(steps) if s_["before"][3] != s_["after"][3]]
         if kind == "cum":
             hopsteps += [i for i, s_ in enumerate(steps) if s_["cum"][1] != s_["cum_after"][1]][:4]
